@@ -68,7 +68,7 @@ def gensOp (j : Json) : R Json := do
     let C ← matf n n j "C"
     let W := DMat.ofMatrix (← matf n n j "W")
     let Wi := DMat.ofMatrix (← matf n n j "Winv")
-    if !(diagGuard (1 / 10000000000 : ℚ) W.toMatrix Wi.toMatrix) then throw "GeometryError"
+    if !(diagGuard W.toMatrix) then throw "GeometryError"
     return .arr ((fins n).map fun i =>
       ofD (DMat.ofMatrix (conjMat W.toMatrix Wi.toMatrix (DMat.ofMatrix (refl C i)).toMatrix))).toArray
   | "vinberg" =>
@@ -90,7 +90,7 @@ def gensOp (j : Json) : R Json := do
     let B ← getB n j
     let W := DMat.ofMatrix (← matf n n j "W")
     let Wi := DMat.ofMatrix (← matf n n j "Winv")
-    if !(diagGuard (1 / 10000000000 : ℚ) W.toMatrix Wi.toMatrix) then throw "GeometryError"
+    if !(diagGuard W.toMatrix) then throw "GeometryError"
     return .arr ((fins n).map fun i =>
       ofD (DMat.ofMatrix (hypRep B W.toMatrix Wi.toMatrix i))).toArray
   | "canonhyp" =>
@@ -100,7 +100,7 @@ def gensOp (j : Json) : R Json := do
     if (fins n).any (fun i => B i i ≠ 1) then throw "diag-not-one"
     let W := DMat.ofMatrix (← matf n n j "W")
     let Wi := DMat.ofMatrix (← matf n n j "Winv")
-    if !(diagGuard (1 / 10000000000 : ℚ) W.toMatrix Wi.toMatrix) then throw "GeometryError"
+    if !(diagGuard W.toMatrix) then throw "GeometryError"
     return .arr ((fins n).map fun i =>
       ofD (DMat.ofMatrix (hypRep B W.toMatrix Wi.toMatrix i).transpose)).toArray
   | _ => throw "unknown kind"
